@@ -311,6 +311,7 @@ func main() {
 	cli.Main(&cli.Property{
 		ID: "C13", Level: "model_checking", Scenarios: scenarios(),
 		QuickBound: 2, ThoroughBound: 3, ThoroughUnbounded: true, Cache: true, QuickSecs: 45, ThoroughSecs: 900,
+		RaceHB: &cli.RaceHB{QuickBound: 1, ThoroughBound: 2},
 		Rule:        "every interleaving with at most b preemptions (thorough: all interleavings where the state cache completes) of concurrent writers (Set/Compute/Add/Apply/Replace/Delete/Trigger), subscribers (OnUpdate/OnTrigger, with and without the zero-value trigger) and unsubscribers on the real reactive Variable, Event and Set; callbacks yield so that overlapping executions are possible; oracle per subscription: first callback starts from the zero value, prev/new chain unbroken, last new == final value, folding the set mutations == final contents, no overlap, no callback after unsubscribe returned; distinct = distinct (outcome, observation log)",
 		Assumptions: []string{"set mutations are folded with add-then-delete semantics; an element reported as added although already present is tolerated by the fold"},
 		NotReached:  []string{"more than 3 concurrent actors", "OnUpdateOnce / OnUpdateWithContext / WithValue helpers"},
